@@ -22,6 +22,9 @@ type Case struct {
 	// Small marks the representatives used as bases for field mutations (payloads <= 8 bytes,
 	// lists of at most one element, every GRE flag combination)
 	Small bool
+	// MayRefuse: the values are at or beyond a documented limit; the serializer may return an
+	// error instead of bytes (if it returns bytes they must still decode back)
+	MayRefuse bool
 }
 
 var (
@@ -331,6 +334,32 @@ func GRE() []Case {
 	return out
 }
 
+// EthernetFrames: Ethernet II frames short enough to be padded to 60 bytes (the serializer
+// APPENDS the padding) followed by longer ones through the same buffer, and 802.3 frames
+// (length field + LLC + SNAP) with lengths around the 1500/1536 boundary between length and type.
+func EthernetFrames() []Case {
+	var out []Case
+	mac1, mac2 := net.HardwareAddr{2, 0, 0, 0, 0, 1}, net.HardwareAddr{2, 0, 0, 0, 0, 2}
+	for _, n := range []int{0, 1, 17, 18, 19, 100, 1400} {
+		n := n
+		out = append(out, Case{Desc: fmt.Sprintf("ethernet-padded: udp payload %d bytes", n), First: layers.LayerTypeEthernet, Small: n <= 1,
+			Make: func() ([]gopacket.SerializableLayer, []byte) {
+				return []gopacket.SerializableLayer{&layers.Ethernet{SrcMAC: mac1, DstMAC: mac2, EthernetType: layers.EthernetTypeIPv4},
+					&layers.IPv4{Version: 4, IHL: 5, TTL: 64, Id: 7, Protocol: layers.IPProtocolUDP, SrcIP: s4, DstIP: d4}, &layers.UDP{SrcPort: 40001, DstPort: 40002}}, PayloadN(n)
+			}})
+	}
+	for _, l := range []int{46, 100, 1499, 1500, 1501, 1510, 1535, 1536, 1537} {
+		l := l
+		out = append(out, Case{Desc: fmt.Sprintf("ethernet-802.3-llc-snap: length field %d", l), First: layers.LayerTypeEthernet, Small: l == 46, MayRefuse: l >= 1536,
+			Make: func() ([]gopacket.SerializableLayer, []byte) {
+				return []gopacket.SerializableLayer{&layers.Ethernet{SrcMAC: mac1, DstMAC: mac2, EthernetType: layers.EthernetTypeLLC},
+					&layers.LLC{DSAP: 0xaa, SSAP: 0xaa, Control: 3}, &layers.SNAP{OrganizationalCode: []byte{0, 0, 0}, Type: layers.EthernetTypeIPv4},
+					&layers.IPv4{Version: 4, IHL: 5, TTL: 64, Id: 7, Protocol: layers.IPProtocolUDP, SrcIP: s4, DstIP: d4}, &layers.UDP{SrcPort: 40001, DstPort: 40002}}, PayloadN(l - 3 - 5 - 20 - 8)
+			}})
+	}
+	return out
+}
+
 // All returns the families C06 round-trips (in a fixed order).
 func All(thorough bool) []Case {
 	var all []Case
@@ -340,7 +369,8 @@ func All(thorough bool) []Case {
 	all = append(all, IPv6TLVs()...)
 	all = append(all, NDP()...)
 	all = append(all, GRE()...)
+	all = append(all, EthernetFrames()...)
 	return all
 }
 
-const Rule = "transport: UDP, TCP, ICMPv4/6 over IPv4 and IPv6 x payload sizes {0,1,2,3,7,8,1499,1500,65527,65528,65529,65535,65536} (jumbograms over IPv6); ipv4-options / tcp-options: every list of 0..3 options over 5 / 6 option kinds (all padding residues); ipv6: hop-by-hop (as explicit layer and through IPv6.HopByHop) and destination headers with every list of 0..3 TLVs of data length 0..7 (all residues mod 8); ndp: the five neighbour-discovery messages x every list of 0..3 options over 4 kinds; gre: all 16 flag combinations."
+const Rule = "transport: UDP, TCP, ICMPv4/6 over IPv4 and IPv6 x payload sizes {0,1,2,3,7,8,1499,1500,65527,65528,65529,65535,65536} (jumbograms over IPv6); ipv4-options / tcp-options: every list of 0..3 options over 5 / 6 option kinds (all padding residues); ipv6: hop-by-hop (as explicit layer and through IPv6.HopByHop) and destination headers with every list of 0..3 TLVs of data length 0..7 (all residues mod 8); ndp: the five neighbour-discovery messages x every list of 0..3 options over 4 kinds; gre: all 16 flag combinations; ethernet: Ethernet II frames padded to 60 bytes followed by longer ones, 802.3 + LLC + SNAP frames with length fields 46..1537 (1536 and 1537 may be refused by the serializer)."
